@@ -24,13 +24,13 @@ SelectPool == << [m |-> "from_", src |-> "T5"], [m |-> "into", src |-> "T2"], [m
 InsertPool == << [m |-> "columns", names |-> <<"a", "b">>], [m |-> "insert", row |-> <<Num("1"), Num("2")>>],
                  [m |-> "insert", row |-> <<Num("3"), Num("4")>>], [m |-> "on_conflict", names |-> <<"a">>],
                  [m |-> "do_update", col |-> "b", val |-> Num("9")], [m |-> "do_nothing"], [m |-> "where", crit |-> Cmp(Fld("T1", "a"), Num("1"))],
-                 [m |-> "select", terms |-> <<Fld("T2", "a")>>], [m |-> "from_", src |-> "T2"] >>
+                 [m |-> "select", terms |-> <<Fld("T2", "a")>>], [m |-> "from_", src |-> "T2"], [m |-> "returning", terms |-> <<Fld("T1", "a")>>] >>
 UpdatePool == << [m |-> "set", col |-> "a", val |-> Num("1")], [m |-> "set", col |-> "b", val |-> Num("2")],
                  [m |-> "where", crit |-> Cmp(Fld("T1", "a"), Num("1"))], [m |-> "from_", src |-> "T2"], JoinT2,
-                 [m |-> "limit", n |-> 3], [m |-> "orderby", terms |-> <<Fld("T1", "a")>>, dir |-> ""] >>
+                 [m |-> "limit", n |-> 3], [m |-> "orderby", terms |-> <<Fld("T1", "a")>>, dir |-> ""], [m |-> "returning", terms |-> <<Fld("T1", "a")>>] >>
 DeletePool == << [m |-> "from_", src |-> "T1"], [m |-> "delete"], [m |-> "where", crit |-> Cmp(Fld("T1", "a"), Num("1"))],
                  [m |-> "orderby", terms |-> <<Fld("T1", "a")>>, dir |-> ""], [m |-> "limit", n |-> 3], JoinT2,
-                 [m |-> "select", terms |-> <<Fld("T1", "a")>>] >>
+                 [m |-> "select", terms |-> <<Fld("T1", "a")>>], [m |-> "returning", terms |-> <<Fld("T1", "a")>>] >>
 Pool == CASE Fam = "select" -> SelectPool [] Fam = "insert" -> InsertPool [] Fam = "update" -> UpdatePool [] OTHER -> DeletePool
 
 VARIABLES perm    \* sequence of pool indices, without repetition
@@ -50,7 +50,7 @@ Writes(c) == CASE c.m = "from_" -> {"from"} [] c.m = "select" -> {"sel", "star"}
                [] c.m = "into" -> {"ins", "selinto"} [] c.m = "update" -> {"upd"} [] c.m = "delete" -> {"del"} [] c.m = "on_conflict" -> {"oc"}
                [] c.m \in {"do_update", "do_nothing"} -> {"oc"} [] c.m \in {"insert", "replace"} -> {"vals"} [] c.m = "columns" -> {"cols"}
                [] c.m = "set" -> {"sets"} [] c.m = "limit" -> {"lim"} [] c.m = "offset" -> {"off"} [] c.m = "groupby" -> {"grp"}
-               [] c.m = "having" -> {"hav"} [] c.m \in {"orderby", "orderbystr"} -> {"ord"} [] c.m = "groupbystr" -> {"grp"} [] OTHER -> {c.m}
+               [] c.m = "having" -> {"hav"} [] c.m = "returning" -> {"ret"} [] c.m \in {"orderby", "orderbystr"} -> {"ord"} [] c.m = "groupbystr" -> {"grp"} [] OTHER -> {c.m}
 Independent(c1, c2) == Reads(c1) \cap Writes(c2) = {} /\ Reads(c2) \cap Writes(c1) = {} /\ Writes(c1) \cap Writes(c2) = {}
 Confluent == \A k \in 1..(Len(Calls) - 1) :
                 LET pre == Fold(Empty, SubSeq(Calls, 1, k - 1))  c1 == Calls[k]  c2 == Calls[k + 1] IN
